@@ -66,8 +66,9 @@ def gen_cases(rng, tier):
                         and not (warm[0] in ("int", "npint", "bool") and _val(warm) in (-1, 5)):
                     cases.append({"kind": "limit_reused", "warm": warm, "arg": a, "bt": bt})
         for lo, hi in [(0, 0), (1, 2), (2, 1), (-1, -2), (Fraction(1, 2), Fraction(1, 3))]:
-            cases.append({"kind": "within", "lo": [Fraction(lo).numerator, Fraction(lo).denominator],
-                          "hi": [Fraction(hi).numerator, Fraction(hi).denominator], "bt": bt})
+            for recv in ("h", "empty_h", "zero_total_h", "empty_p", "p", "h_vs_empty", "p_vs_empty_p"):
+                cases.append({"kind": "within", "lo": [Fraction(lo).numerator, Fraction(lo).denominator],
+                              "hi": [Fraction(hi).numerator, Fraction(hi).denominator], "bt": bt, "recv": recv})
         for md, pl in [(True, True), (True, False), (False, True), (False, False)]:
             for via in ("explode", "substitute"):
                 for mdv in ([0, 1, 2, False] if md else [None]):
@@ -75,6 +76,11 @@ def gen_cases(rng, tier):
         for none, ns in [(True, 0), (True, 1), (True, 2), (False, 0), (False, 1)]:
             for style in ("tuple", "list", "iterator", "generator", "filter"):
                 cases.append({"kind": "rollnone", "none": none, "ns": ns, "bt": bt, "style": style})
+    for bt in (False, True):
+        for mode in ("replace", "append", "default"):
+            for ns in (0, 1):
+                for how in ("outcome", "roll"):
+                    cases.append({"kind": "adoptnone", "mode": mode, "ns": ns, "how": how, "bt": bt})
     if tier == "quick":
         return cases
     return cases   # the grammar is finite: quick already enumerates it completely
@@ -164,7 +170,24 @@ def impl_run(case):
             res = H({py_arg(case["arg"]): 1}).is_even()
             out = {"ok": bool(list(res)[0])}
         elif k == "within":
-            h.within(Fraction(*case["lo"]), Fraction(*case["hi"]))
+            from dyce import P as _P
+            lo, hi = Fraction(*case["lo"]), Fraction(*case["hi"])
+            recv = case.get("recv", "h")
+            # the bounds are validated whatever the operands are (nothing to compare included)
+            if recv == "h":
+                h.within(lo, hi)
+            elif recv == "empty_h":
+                H({}).within(lo, hi)
+            elif recv == "zero_total_h":
+                H({1: 0}).within(lo, hi)
+            elif recv == "empty_p":
+                _P().within(lo, hi)
+            elif recv == "p":
+                _P(h, h).within(lo, hi)
+            elif recv == "h_vs_empty":
+                h.within(lo, hi, H({}))
+            else:
+                _P(h).within(lo, hi, _P())
             out = {"ok": 0}
         elif k == "both":
             kw = {}
@@ -177,6 +200,23 @@ def impl_run(case):
             else:
                 h.substitute(lambda hh, o: o, **kw)
             out = {"ok": 0}
+        elif k == "adoptnone":
+            # a None-valued outcome (a tombstone) re-parented: without sources it is as illegal as at construction
+            from dyce.r import CoalesceMode, Roll
+            x = RollOutcome(7)
+            t = x.euthanize()
+            srcs = [RollOutcome(1) for _ in range(case["ns"])]
+            args = {"replace": (srcs, CoalesceMode.REPLACE), "append": (srcs, CoalesceMode.APPEND), "default": (srcs,)}[case["mode"]]
+            if case["ns"] == 0 and case["mode"] == "default":
+                args = ()
+            if case["how"] == "outcome":
+                got = t.adopt(*args)
+                ok = got.value is None and len(got.sources) == (case["ns"] + (1 if case["mode"] == "append" else 0))
+            else:
+                roll = Roll(R.from_value(7), [t], ())
+                got = roll.adopt(*args)
+                ok = len(got) == 1 and got[0].value is None
+            out = {"ok": 0} if ok else {"exc": "WrongRecord"}
         elif k == "rollnone":
             srcs = [RollOutcome(1) for _ in range(case["ns"])]
             style = case.get("style", "list")
@@ -250,6 +290,9 @@ def coq_check(case, r):
         return f"chk_guard_unit (both_limits_guard {'true' if case['md'] else 'false'} {'true' if case['pl'] else 'false'}) {ok} {e}"
     if k == "rollnone":
         return f"chk_guard_unit (roll_outcome_guard {'true' if case['none'] else 'false'} {cnat(case['ns'])}) {ok} {e}"
+    if k == "adoptnone":
+        nsrc = case["ns"] + (1 if case["mode"] == "append" else 0)
+        return f"chk_guard_unit (roll_outcome_guard true {cnat(nsrc)}) {ok} {e}"
 
 
 def coq_show(case):
@@ -305,6 +348,8 @@ def oracle(case):
         return {"exc": ["ValueError"]} if (case["md"] and case["pl"]) else {"ok": 0}
     if k == "rollnone":
         return {"exc": ["ValueError"]} if (case["none"] and case["ns"] == 0) else {"ok": 0}
+    if k == "adoptnone":
+        return {"exc": ["ValueError"]} if (case["ns"] == 0 and case["mode"] != "append") else {"ok": 0}
 
 
 def agree(case, r, o):
